@@ -31,7 +31,7 @@ EVIDENCE = os.environ.get("Y0SIM_EVIDENCE_DIR") or os.path.join(VERIF, "evidence
 TIERS = {
     # per property: scenarios per group and waves; group = 4 workers running the same scenario ids
     "quick": {"C14": (900, 1), "C02": (300, 1), "C11": (2500, 1), "C04": (420, 1), "wall": 200, "min_runs": 300, "max_sigs": 4},
-    "thorough": {"C14": (4000, 6), "C02": (1400, 6), "C11": (30000, 6), "C04": (4200, 6), "wall": 1500, "min_runs": 400, "max_sigs": 8},
+    "thorough": {"C14": (3600, 6), "C02": (1400, 6), "C11": (20000, 6), "C04": (2100, 6), "wall": 3000, "min_runs": 400, "max_sigs": 8},
 }
 GROUP = 4
 
